@@ -155,6 +155,11 @@ def aad_layout(t, g, r, need):
                 if n is None: n = Ev(t, g).array_len(tg[0])
                 k += tg[1]
             parts.append((k, k + 1, fmt(t.stored(s_)), s_))
+    if not parts and not r.violations:
+        # the buffer is filled in a form this rule cannot lay out (an iterator chain zipped into the buffer, a concatenation, ..): not decided.
+        # The byte-level agreement of what is sealed and what is opened is still held by the sibling rules (same builder on both sides).
+        r.samples.append(f"{short(g.path)}: AAD layout not resolvable in this spelling, not evaluated"); r.sites += 1
+        return parts
     parts.sort(key=lambda p_: (p_[0], p_[1]))
     for p_ in parts: r.site(p_[3], f"[{p_[0]}..{p_[1]}) <- {p_[2][-40:]}")
     cur = 0
